@@ -32,7 +32,13 @@ func genCMapBody(t *sim.Tape, name string, sb *strings.Builder, others []string)
 	}
 	fmt.Fprintf(sb, "12 dict begin%sbegincmap%s", ws(), ws())
 	fmt.Fprintf(sb, "/CIDSystemInfo 3 dict dup begin /Registry (Adobe) def /Ordering (%s) def /Supplement %d def end def%s", []string{"Identity", "Japan1", "UCS"}[t.Choose(3)], t.Choose(7), ws())
-	fmt.Fprintf(sb, "/CMapName /%s def%s/CMapVersion 1.0 def%s/CMapType %d def%s", name, ws(), ws(), t.Choose(3), ws())
+	// the /CMapName entry normally repeats the resource key, but nothing makes
+	// it: one file in four has CMaps whose entries all say the same (small) name
+	entry := name
+	if len(others) > 0 && t.Choose(4) == 0 {
+		entry = []string{"!", "Shared", "-"}[t.Choose(3)]
+	}
+	fmt.Fprintf(sb, "/CMapName /%s def%s/CMapVersion 1.0 def%s/CMapType %d def%s", entry, ws(), ws(), t.Choose(3), ws())
 	if t.Bool(1, 2) {
 		fmt.Fprintf(sb, "/WMode %d def%s", t.Choose(2), ws())
 	}
@@ -101,6 +107,10 @@ func genCMapBody(t *sim.Tape, name string, sb *strings.Builder, others []string)
 			}
 			sb.WriteString("endbfrange" + ws())
 		}
+	}
+	if entry != name {
+		fmt.Fprintf(sb, "endcmap%s/%s currentdict /CMap defineresource pop%send%s", ws(), name, ws(), ws())
+		return
 	}
 	fmt.Fprintf(sb, "endcmap%sCMapName currentdict /CMap defineresource pop%send%s", ws(), ws(), ws())
 }
@@ -217,6 +227,16 @@ func GenMetrics(t *sim.Tape, maxGlyphs int) *afm.Metrics {
 	}
 	for i := t.Small(12); i > 0; i-- {
 		m.Kern = append(m.Kern, &afm.KernPair{Left: sim.Pick(t, names), Right: sim.Pick(t, names), Adjust: funit.Int16(t.Range(-200, 200))})
+	}
+	if len(m.Kern) >= 2 && t.Choose(4) == 0 {
+		// the same pair listed twice (with the same or another adjustment)
+		for i := 1 + t.Choose(2); i > 0; i-- {
+			k := *m.Kern[t.Choose(len(m.Kern))]
+			if t.Bool(1, 2) {
+				k.Adjust = funit.Int16(t.Range(-200, 200))
+			}
+			m.Kern = append(m.Kern, &k)
+		}
 	}
 	return m
 }
